@@ -173,7 +173,11 @@ def _run(res, spec, tier, scratch):
         if not recs:
             continue
         if spec["mode"] == "small":
-            for order in (recs, recs[::-1]):
+            orders = [recs, recs[::-1]]
+            if tier == "thorough":
+                # every rotation of the record list as well (which record comes first/last per contig changes)
+                orders += [recs[k:] + recs[:k] for k in range(1, len(recs), max(1, len(recs) // 12))]
+            for order in orders:
                 for bgzip in (False, True):
                     for use_outind in (False, True):
                         judge(res, g, setname, order, bgzip, use_outind, scratch)
